@@ -413,7 +413,9 @@ def shrink(case, failing):
 
 # ------------------------------------------------------------------ Coq emission
 def cz(n):
-    return f"({n})" if n < 0 else str(n)
+    # Coq parses a 300-digit decimal literal in ~0.4 s but a hexadecimal one in ~5 ms
+    t = hex(abs(n)) if abs(n) >= 2 ** 64 else str(abs(n))
+    return f"(-{t})" if n < 0 else t
 
 
 def model_ops(case):
